@@ -32,10 +32,14 @@ def build(r, leaf_str=False, via="ctor", style=0, memo=None, _root=True):
         ident = _p.variable(ident, (r["f"], r["f"]))         # pre-fixed compound: variable with constant bounds
     c = r["c"]
     if via == "json":
+        # the document is parsed twice (a caller may keep and re-use its document): the second result is the one that is used
+        doc = to_json_recipe(r)
         if c == "Cfg":
             import puan.modules.configurator as cc
-            return cc.StingyConfigurator.from_json(to_json_recipe(r))
-        return pg.from_json(to_json_recipe(r))
+            cc.StingyConfigurator.from_json(doc)
+            return cc.StingyConfigurator.from_json(doc)
+        pg.from_json(doc)
+        return pg.from_json(doc)
     it = args
     if style == 2: it = (x for x in args)
     if style == 3: it = map(lambda x: x, args)
